@@ -348,21 +348,21 @@ pub fn check(tier: Tier) -> Check {
         ],
         deciding: vec!["C14"],
         streams: vec![
-            Stream::new("decode", tier.pick(16, 64), decode_scenario).supervised(tier.pick(300.0, 1800.0)),
-            Stream::new("node", tier.pick(32, 320), node_scenario).supervised(tier.pick(300.0, 1800.0)),
+            Stream::new("decode", tier.pick(32, 64), decode_scenario).supervised(tier.pick(300.0, 1800.0)),
+            Stream::new("node", tier.pick(128, 320), node_scenario).supervised(tier.pick(300.0, 1800.0)),
         ],
         require: vec![
-            ("decode_rejected", tier.pick(100_000, 5_000_000)),
-            ("decoded_ok", tier.pick(5_000, 200_000)),
-            ("class_HugeLength", tier.pick(20_000, 500_000)),
-            ("class_Nesting", tier.pick(20_000, 500_000)),
-            ("class_Truncation", tier.pick(20_000, 500_000)),
-            ("systematic_sweeps", tier.pick(100, 3_000)),
-            ("hostile_datagrams_injected_into_a_node", tier.pick(20_000, 1_000_000)),
-            ("node_liveness_probes", tier.pick(800, 40_000)),
-            ("searches_completed_under_garbage", tier.pick(100, 5_000)),
-            ("datagrams_duplicated_by_the_network", tier.pick(2_000, 50_000)),
-            ("api_calls_racing_deliveries", tier.pick(2_000, 50_000)),
+            ("decode_rejected", tier.pick(200_000, 5_000_000)),
+            ("decoded_ok", tier.pick(10_000, 200_000)),
+            ("class_HugeLength", tier.pick(40_000, 500_000)),
+            ("class_Nesting", tier.pick(40_000, 500_000)),
+            ("class_Truncation", tier.pick(40_000, 500_000)),
+            ("systematic_sweeps", tier.pick(200, 3_000)),
+            ("hostile_datagrams_injected_into_a_node", tier.pick(80_000, 1_000_000)),
+            ("node_liveness_probes", tier.pick(3_200, 40_000)),
+            ("searches_completed_under_garbage", tier.pick(400, 5_000)),
+            ("datagrams_duplicated_by_the_network", tier.pick(8_000, 50_000)),
+            ("api_calls_racing_deliveries", tier.pick(8_000, 50_000)),
         ],
         exhaustive: false,
     }
